@@ -62,7 +62,10 @@ ARGPOOL = ["", "0", "-1", "1", "2", "255", "256", "65535", "65536", "$7fffffff",
            "68000", "z80", "xyz", "MOMCPU", "MOMPASS", "MOMFILE", "MOMLINE", "MOMSECTION", "__LINE__", "1.0", "-0.0",
            "1.5e3", "'ab'", "'abcd'", "'abcdefghi'", "\"\\\"\"", "\t", "  ", "a b", "parent0", "x[parent0]", "x[]",
            "x[y]", "x[", "$$x", "+", "-", "/", "++", "--", "//", ".x"]
-CONSTRUCT_LINES = ["m macro a,b", "m macro", " endm", " if 1", " if 0", " else", " elseif 1", " endif", " switch 1",
+CONSTRUCT_LINES = ["m macro a,b", "m macro", " endm", "m macro a,{GLOBAL}", "m macro a=1,b,{GLOBAL:s}", "m macro {PUBLIC}",
+                   "m macro a,{PUBLIC:s},{EXPORT}", "m macro a,{NOEXPAND},{INTLABEL}", "m macro a,{EXPIF},{NOEXPMACRO}",
+                   "m macro a,b,{GLOBALSYMBOLS},{EXPREST}", " s_m 1", " m a=2", " section t", " public x:parent",
+                   " global x", " forward x", " if 1", " if 0", " else", " elseif 1", " endif", " switch 1",
                    " case 1", " elsecase", " endcase", "s struct", "s union", " endstruct", " endunion", " section s",
                    " endsection", " endsection s", " save", " restore", " phase 100", " dephase", " rept 2",
                    " irp x,1,2", " irpc x,\"ab\"", " irpn 2,x,y,1,2,3", " irpn 0,x,1", " irpn -1,x,y", " m 1,2", " m",
